@@ -10,7 +10,12 @@
     segment lies in the segment's box;
   * every vertex / every segment box of a series lies in the rectangle of `processPoints`
     (from C18 `rect_tight`, `bboxSpec_tight`); `numSegments = 0 ↔ empty`;
-  * an edge `segmentAt i` is an element of `Spec.edges` (from C18 `segmentAt_spec`).
+  * an edge `segmentAt i` is an element of `Spec.edges` (from C18 `segmentAt_spec`);
+  * segments of a series rebuilt from mapped points (injective map); `Line.containsPoint` is
+    exact (`line_containsPoint_iff`); `Line.intersectsLine` is exact (`line_meet_iff`);
+  * one step of the `Line.ContainsLine` walk either returns, advances `i`, or moves `segIdx`
+    strictly in its current direction (`walkStep_spec`); hence the walk returns within
+    `k·(n+1) + rank + 1` steps (`walk_isSome`).
   NOT proved here: anything about crossing parity (point-in-ring), which is C01.
 -/
 import GeoProofs.Props.C18
@@ -294,6 +299,164 @@ theorem inRing_of_onEdge (s : Series) (i : Nat) (hi : i < s.numSegments) (p : Pt
   left
   rw [List.any_eq_true]
   exact ⟨_, segmentAt_mem_edges s.pts s.closed i hi, (spec_onSeg_iff _ _ _).2 hp⟩
+
+
+/-! ### series rebuilt from mapped points; point on a line string -/
+
+theorem getElem!_map (T : Pt → Pt) (pts : Array Pt) (j : Nat) (hj : j < pts.size) :
+    (pts.map T)[j]! = T pts[j]! := by
+  rw [getElem!_pos _ j (by simpa using hj), getElem!_pos _ j hj, Array.getElem_map]
+
+theorem numSegmentsOf_map (T : Pt → Pt) (hT : Function.Injective T) (pts : Array Pt) (closed : Bool) :
+    numSegmentsOf (pts.map T) closed = numSegmentsOf pts closed := by
+  unfold numSegmentsOf
+  simp only [Array.size_map]
+  by_cases h3 : pts.size < 3
+  · simp only [h3, if_true]
+  · simp only [h3, if_false]
+    rw [getElem!_map T pts _ (by omega), getElem!_map T pts 0 (by omega)]
+    have : (T pts[pts.size - 1]! == T pts[0]!) = (pts[pts.size - 1]! == pts[0]!) := by
+      rw [Bool.eq_iff_iff, beq_iff_eq, beq_iff_eq, hT.eq_iff]
+    rw [this]
+
+theorem segmentAtOf_map (T : Pt → Pt) (pts : Array Pt) (closed : Bool) (i : Nat)
+    (hi : i < numSegmentsOf pts closed) :
+    segmentAtOf (pts.map T) i = ⟨T (segmentAtOf pts i).a, T (segmentAtOf pts i).b⟩ := by
+  have hle := numSegmentsOf_le pts closed
+  unfold segmentAtOf
+  simp only [Array.size_map]
+  rw [getElem!_map T pts i (by omega)]
+  split_ifs with h
+  · rw [getElem!_map T pts 0 (by omega)]
+  · have : i ≠ pts.size - 1 := by simpa using h
+    rw [getElem!_map T pts (i+1) (by omega)]
+
+/-- point on an un-indexed line string: exact -/
+theorem line_containsPoint_iff (l : Line) (hidx : l.index = none) (p : Pt) :
+    l.containsPoint p = true ↔
+      ∃ i, i < l.numSegments ∧ OnSeg (l.segmentAt i).a (l.segmentAt i).b p := by
+  have e : l.containsPoint p = (Ring.ser l).searchAny p.box (fun seg _ => (seg.raycast p).on) := rfl
+  rw [e, ring_searchAny_iff (.ser l) hidx]
+  constructor
+  · rintro ⟨i, hi, -, hon⟩
+    exact ⟨i, hi, (raycast_on_iff _ _ _).1 hon⟩
+  · rintro ⟨i, hi, hon⟩
+    refine ⟨i, hi, ?_, (raycast_on_iff _ _ _).2 hon⟩
+    apply intersects_of_common _ _ p (onSeg_in_segBox _ p hon)
+    rw [containsPt_iff]
+    exact ⟨le_refl _, le_refl _, le_refl _, le_refl _⟩
+
+/-! ### line × line -/
+
+/-- the nested any-loop of `Line.intersectsLine` -/
+theorem anyMeet_iff (l m : Line) (hm : m.index = none) :
+    (List.range l.numSegments).any (fun i =>
+      (Ring.ser m).searchAny (l.segmentAt i).box (fun segB _ => (l.segmentAt i).intersects segB)) = true ↔
+    ∃ i, i < l.numSegments ∧ ∃ j, j < m.numSegments ∧
+      SegsMeet (l.segmentAt i).a (l.segmentAt i).b (m.segmentAt j).a (m.segmentAt j).b := by
+  rw [List.any_eq_true]
+  constructor
+  · rintro ⟨i, hi, h⟩
+    rw [ring_searchAny_iff (.ser m) hm] at h
+    obtain ⟨j, hj, -, hp⟩ := h
+    exact ⟨i, List.mem_range.1 hi, j, hj, (segIntersects_iff _ _).1 hp⟩
+  · rintro ⟨i, hi, j, hj, h⟩
+    refine ⟨i, List.mem_range.2 hi, ?_⟩
+    rw [ring_searchAny_iff (.ser m) hm]
+    exact ⟨j, hj, segBoxes_intersect_of_meet h, (segIntersects_iff _ _).2 h⟩
+
+theorem line_meet_iff (l m : Line) (hl : Plain l) (hm : Plain m) :
+    l.intersectsLine m = true ↔
+      ∃ i, i < l.numSegments ∧ ∃ j, j < m.numSegments ∧
+        SegsMeet (l.segmentAt i).a (l.segmentAt i).b (m.segmentAt j).a (m.segmentAt j).b := by
+  unfold Line.intersectsLine
+  split_ifs with h1 h2 hn
+  · -- one of the two is empty: no segment
+    refine iff_of_false (by simp) ?_
+    rintro ⟨i, hi, j, hj, -⟩
+    simp only [Bool.or_eq_true] at h1
+    rcases h1 with h | h
+    · rw [(numSegments_eq_zero_iff l).2 h] at hi; omega
+    · rw [(numSegments_eq_zero_iff m).2 h] at hj; omega
+  · -- disjoint rectangles: a common point would lie in both
+    refine iff_of_false (by simp) ?_
+    rintro ⟨i, hi, j, hj, p, hp1, hp2⟩
+    have := intersects_of_common _ _ p (onSeg_in_rect l hl i hi p hp1) (onSeg_in_rect m hm j hj p hp2)
+    simp [this] at h2
+  · simp only
+    rw [anyMeet_iff m l hl.1]
+    constructor
+    · rintro ⟨j, hj, i, hi, h⟩
+      exact ⟨i, hi, j, hj, (K.segsMeet_symm _ _ _ _).1 h⟩
+    · rintro ⟨i, hi, j, hj, h⟩
+      exact ⟨j, hj, i, hi, (K.segsMeet_symm _ _ _ _).1 h⟩
+  · exact anyMeet_iff l m hm.1
+
+/-! ### the `Line.ContainsLine` walk: one step, and termination within the fuel -/
+
+/-- steps the walk can still make in its current direction without advancing `i` -/
+def walkRank (n : Nat) (st : WalkSt) : Nat :=
+  if st.dir = -1 then st.segIdx else if st.dir = 1 then n - 1 - st.segIdx else n
+
+theorem walkStep_spec (line other : Line) (n : Nat) (st : WalkSt) (hs : st.segIdx < n) :
+    (∃ b, (walkStep line other n st).2 = some b) ∨
+    ((walkStep line other n st).2 = none ∧
+      (((walkStep line other n st).1.i = st.i + 1 ∧ (walkStep line other n st).1.dir = 0 ∧
+          (walkStep line other n st).1.segIdx = st.segIdx) ∨
+       ((walkStep line other n st).1.i = st.i ∧ (walkStep line other n st).1.segIdx < n ∧
+          walkRank n (walkStep line other n st).1 < walkRank n st))) := by
+  unfold walkStep
+  simp only
+  split_ifs with h1 h2 h3 h4 h5
+  · exact Or.inr ⟨rfl, Or.inl ⟨rfl, rfl, rfl⟩⟩
+  · exact Or.inl ⟨_, rfl⟩
+  · refine Or.inr ⟨rfl, Or.inr ⟨rfl, ?_, ?_⟩⟩
+    · simp only; omega
+    · simp only [Bool.or_eq_true, beq_iff_eq, not_or] at h3
+      unfold walkRank
+      simp only [if_true]
+      split_ifs <;> omega
+  · exact Or.inl ⟨_, rfl⟩
+  · simp only [Bool.or_eq_true, beq_iff_eq, not_or] at h5
+    refine Or.inr ⟨rfl, Or.inr ⟨rfl, ?_, ?_⟩⟩
+    · simp only; omega
+    · unfold walkRank
+      simp only [show ((1 : Int) = -1) = False from eq_false (by decide), if_false, if_true]
+      split_ifs <;> omega
+  · exact Or.inr ⟨rfl, Or.inl ⟨rfl, rfl, rfl⟩⟩
+
+theorem walk_isSome (line other : Line) (n m : Nat) :
+    ∀ (fuel k : Nat) (st : WalkSt), st.segIdx < n → m ≤ st.i + k →
+      k * (n + 1) + walkRank n st + 1 ≤ fuel → (walk line other n m fuel st).isSome = true := by
+  intro fuel
+  induction fuel with
+  | zero => intro k st _ _ h; omega
+  | succ fuel ih =>
+    intro k st hs hk hf
+    rw [walk]
+    split_ifs with hi
+    · rcases walkStep_spec line other n st hs with ⟨b, hb⟩ | ⟨hnone, hcase⟩
+      · rcases hw : walkStep line other n st with ⟨st', r⟩
+        rw [hw] at hb
+        simp only at hb
+        subst hb
+        rfl
+      · rcases hw : walkStep line other n st with ⟨st', r⟩
+        rw [hw] at hnone hcase
+        simp only at hnone hcase
+        subst hnone
+        simp only
+        rcases hcase with ⟨e1, e2, e3⟩ | ⟨e1, e2, e3⟩
+        · obtain ⟨k', rfl⟩ : ∃ k', k = k' + 1 := ⟨k - 1, by omega⟩
+          apply ih k' st' (by omega) (by omega)
+          have hr : walkRank n st' = n := by
+            unfold walkRank; rw [e2]; simp
+          rw [hr]
+          rw [Nat.succ_mul] at hf
+          omega
+        · apply ih k st' e2 (by omega)
+          omega
+    · rfl
 
 
 end GL
